@@ -332,8 +332,128 @@ def rule_d(repo, chk):
     chk.ob('C11.d', ok, sl, 'the literal is evaluated with ast.literal_eval')
 
 
+KINDS5 = ('POSITIONAL_ONLY', 'POSITIONAL_OR_KEYWORD', 'VAR_POSITIONAL', 'KEYWORD_ONLY', 'VAR_KEYWORD')
+
+
+def _pp_eval(e, env, loopvar):
+    """Value of a test of the dispatch in process_params for one cell (kind, star_count)."""
+    if isinstance(e, ast.BoolOp):
+        if isinstance(e.op, ast.And):
+            v = True
+            for x in e.values:
+                v = _pp_eval(x, env, loopvar)
+                if not v:
+                    return v
+            return v
+        v = False
+        for x in e.values:
+            v = _pp_eval(x, env, loopvar)
+            if v:
+                return v
+        return v
+    if isinstance(e, ast.UnaryOp) and isinstance(e.op, ast.Not):
+        return not _pp_eval(e.operand, env, loopvar)
+    if isinstance(e, ast.Constant):
+        return e.value
+    if isinstance(e, ast.Name) and e.id in env:
+        return env[e.id]
+    if norm(e) == '%s.get_kind()' % loopvar:
+        return env['kind']
+    if isinstance(e, ast.Attribute) and norm(e.value) == 'Parameter' and e.attr in KINDS5:
+        return e.attr
+    if isinstance(e, (ast.Tuple, ast.List, ast.Set)):
+        return tuple(_pp_eval(x, env, loopvar) for x in e.elts)
+    if isinstance(e, ast.BinOp) and isinstance(e.op, (ast.BitAnd, ast.BitOr)):
+        a, b = _pp_eval(e.left, env, loopvar), _pp_eval(e.right, env, loopvar)
+        if isinstance(a, int) and isinstance(b, int):
+            return a & b if isinstance(e.op, ast.BitAnd) else a | b
+    if isinstance(e, ast.Compare) and len(e.ops) == 1:
+        a, b, o = _pp_eval(e.left, env, loopvar), _pp_eval(e.comparators[0], env, loopvar), e.ops[0]
+        table = {ast.Eq: lambda: a == b, ast.NotEq: lambda: a != b, ast.In: lambda: a in b, ast.NotIn: lambda: a not in b,
+                 ast.Is: lambda: a == b, ast.IsNot: lambda: a != b, ast.Gt: lambda: a > b, ast.GtE: lambda: a >= b,
+                 ast.Lt: lambda: a < b, ast.LtE: lambda: a <= b}
+        if type(o) in table:
+            return table[type(o)]()
+    raise AnchorError('cannot evaluate %s' % norm(e))
+
+
+def _pp_effects(stmts, env, loopvar, out):
+    """Runs the loop body for one cell; returns False when the iteration was left (continue)."""
+    def cls(v):
+        if norm(v) == loopvar:
+            return 'as-is'
+        if isinstance(v, ast.Call) and call_name(v) == 'ParamNameFixedKind' and len(v.args) == 2 and norm(v.args[0]) == loopvar:
+            return 'as ' + str(_pp_eval(v.args[1], env, loopvar))
+        raise AnchorError('cannot classify %s' % norm(v))
+    for s in stmts:
+        if isinstance(s, ast.If):
+            if not _pp_effects(s.body if _pp_eval(s.test, env, loopvar) else s.orelse, env, loopvar, out):
+                return False
+        elif isinstance(s, ast.Continue):
+            return False
+        elif isinstance(s, ast.Pass):
+            pass
+        elif isinstance(s, ast.Assign) and len(s.targets) == 1 and isinstance(s.targets[0], ast.Name):
+            t = s.targets[0].id
+            if norm(s.value) == '%s.get_kind()' % loopvar:
+                env[t] = env['kind']
+            elif t in ('arg_callables', 'original_arg_name'):
+                out.add('forward *args')
+            elif t in ('kwarg_callables', 'original_kwarg_name'):
+                out.add('forward **kwargs')
+            else:
+                raise AnchorError('unexpected assignment %s' % norm(s))
+        elif isinstance(s, ast.Expr) and isinstance(s.value, ast.Yield) and s.value.value is not None:
+            out.add('positional ' + cls(s.value.value))
+        elif isinstance(s, ast.Expr) and isinstance(s.value, ast.Call) and isinstance(s.value.func, ast.Attribute) \
+                and s.value.func.attr == 'append' and norm(s.value.func.value) == 'kw_only_names' and len(s.value.args) == 1:
+            out.add('keyword-only ' + cls(s.value.args[0]))
+        elif isinstance(s, ast.Expr) and isinstance(s.value, ast.Call) and norm(s.value.func) == 'used_names.add':
+            pass
+        elif isinstance(s, ast.Expr) and isinstance(s.value, ast.Constant):
+            pass
+        else:
+            raise AnchorError('unexpected statement %s' % short(norm(s), 60))
+    return True
+
+
+def rule_e(repo, chk):
+    chk.clause('C11.e', 'pass-through wrappers: which parameters of the wrapped callable stay reachable is a function of their kind and of '
+                        'what the wrapper forwards (star_count 1 = only *args, 2 = only **kwargs, 3 = both); the dispatch loop of '
+                        'process_params is decided as that function, cell by cell (5 kinds x 3 forwardings)')
+    pp = repo.find('jedi.inference.star_args', 'process_params')
+    loops = [n for n in own_nodes(pp) if isinstance(n, ast.For) and norm(n.iter) == 'param_names' and isinstance(n.target, ast.Name)
+             and 'VAR_POSITIONAL' in norm(n)]
+    chk.floor('C11.e', len(loops), 1)
+    loop = loops[0]
+    lv = loop.target.id
+
+    def want(kind, sc):
+        if kind == 'VAR_POSITIONAL':
+            return {'forward *args'} if sc & 1 else set()
+        if kind == 'VAR_KEYWORD':
+            return {'forward **kwargs'} if sc & 2 else set()
+        if kind == 'KEYWORD_ONLY':          # reachable only through **kwargs
+            return {'keyword-only as-is'} if sc & 2 else set()
+        if kind == 'POSITIONAL_ONLY':       # reachable only through *args
+            return {'positional as-is'} if sc & 1 else set()
+        return {1: {'positional as POSITIONAL_ONLY'}, 2: {'keyword-only as KEYWORD_ONLY'}, 3: {'positional as-is'}}[sc]
+    bad, why = [], ''
+    try:
+        for kind, sc in itertools.product(KINDS5, (1, 2, 3)):
+            out = set()
+            _pp_effects(loop.body, {'kind': kind, 'star_count': sc}, lv, out)
+            if out != want(kind, sc):
+                bad.append('%s with star_count=%d: %s, expected %s' % (kind, sc, sorted(out) or 'nothing', sorted(want(kind, sc)) or 'nothing'))
+    except AnchorError as e_:
+        why = str(e_)
+    chk.ob('C11.e', not bad and not why, loop, 'a parameter of the wrapped callable is reported exactly when the forwarded */** can bind it: positional-only only '
+           'through *args, keyword-only only through **kwargs, positional-or-keyword narrowed to the forwarded half', why or '; '.join(bad[:4]),
+           key='process_params-dispatch')
+
+
 def describe(chk):
-    chk.undecided('the index case analysis beyond its keyword guard and equality with inspect.signature (value dependent); *args/**kwargs pass-through resolution (process_params)')
+    chk.undecided('the index case analysis beyond its keyword guard and equality with inspect.signature (value dependent); *args/**kwargs pass-through resolution beyond the kind x forwarding dispatch of process_params')
 
 
-RULES = [('C11.a', rule_a), ('C11.b', rule_b), ('C11.c', rule_c), ('C11.d', rule_d)]
+RULES = [('C11.a', rule_a), ('C11.b', rule_b), ('C11.c', rule_c), ('C11.d', rule_d), ('C11.e', rule_e)]
